@@ -136,7 +136,7 @@ CLAIMED.update({
              "serialize_recursive marks exactly the reference closure, changes nothing else, and the same round trip holds. The same statements run as an executable monitor on the implementation's roundtrip transcripts "
              "(SimpleMarker and UuidMarker, JSON and RON) and the model is compared line by line with the real crate.",
         technique="Lean 4 proof (invariant + step-wise functional specification of deserialize / serialize / the recursive work list) on a hand-written model; differential correspondence check + executable bijection monitor",
-        design="7/C14", note=SL_NOTE),
+        design="7/C14", note=SL_NOTE + " Known finding F2 (unrepaired, known_findings.txt): with serde_json a unit-struct component is lost on the round trip (Some(unit) and None both serialise as null); exhibited by the unit_roundtrip probe of h_saveload, whose specification is the property statement itself because the model has no unit-struct component type; printed as KNOWN-FINDING, every other rejection is still a VIOLATION."),
     "C15": dict(
         text="Lean theorems C15.marker_invariant / mapping_stale_or_right / markers_unique / only_serialisers_panic / mark_marked / mark_unmarked / deserialize_merges / reload_creates_nothing: after every history of create / "
              "component writes / mark / delete (all paths incl. failing batches) / maintain / allocator.maintain / serialize / serialize_recursive / deserialize of arbitrary data (own, foreign, repeated, duplicate markers, "
@@ -267,7 +267,7 @@ m = {
                  "kind_free_text": "Lean 4 model + kernel-checked theorems; Rust differential harness driving the real crate; compiled Lean driver comparing transcripts and running property monitors"}],
     "checks": checks,
     "not_applicable": na,
-    "notes": "See DESIGN.md. known_findings.txt lists fixed/known findings. Genuine defect F1 repaired in /repo by a fix: commit.",
+    "notes": "See DESIGN.md (section 0 is the as-built summary). known_findings.txt: F1 (C17) fixed in /repo by a fix: commit; F2 (C14: unit-struct components are lost on a serde_json round trip) is a recorded, unrepaired finding printed as KNOWN-FINDING by bin/check C14. seeded/ holds 75+ confirmed breaking changes written by independent sub-agents and what detects each.",
 }
 json.dump(m, open(os.path.join(V, "MANIFEST.json"), "w"), indent=1)
 print("claimed", sorted(CLAIMED), "unclaimed", len(na))
